@@ -334,3 +334,10 @@ Lemma bytes_of_length k x : length (bytes_of k x) = k.
 Proof. revert x; induction k; intros; cbn; auto. Qed.
 Lemma bytes_of_range k x : Forall (fun b => 0 <= b < 256) (bytes_of k x).
 Proof. revert x; induction k; intros; cbn; constructor; auto. apply Z.mod_pos_bound; lia. Qed.
+
+Lemma in_range_example : in_range 32 4294967295 /\ ~ in_range 32 4294967296 /\ iadd 32 4294967295 1 = 0.
+Proof.
+  split; [|split]; [ | |reflexivity].
+  - unfold in_range. change (modulus 32) with 4294967296. lia.
+  - unfold in_range. change (modulus 32) with 4294967296. lia.
+Qed.
